@@ -159,6 +159,13 @@ def run_bundled(task, tier, seed, col):
 
 # ------------------------------------------------------------------------------------- generated files
 
+def _float_range(f):
+    try:
+        return 1e-280 < abs(float(f)) < 1e280
+    except OverflowError:
+        return False
+
+
 def _decoy(lines):
     """the same file with every unit factor multiplied by 7 (a different definition set with the same names)"""
     out, block = [], None
@@ -248,6 +255,8 @@ def battery(ureg, model, nit, path):
         elif nit == "Decimal":
             if not isinstance(gf, (Decimal, int)) or not decimal_close(gf, f, 12):
                 raise Violation("factor_not_as_written:Decimal", f"[{path}/{nit}] {name}: {gf!r} vs {f}")
+        elif not _float_range(f):
+            continue  # (chains of generated factors that leave the float range: compared in the Fraction and Decimal registries only)
         elif not float_close(float(gf), f, 12):
             raise Violation("factor_not_as_written:float", f"[{path}/{nit}] {name}: {gf!r} vs {float(f)!r}")
         out[("factor", name)] = str(gf)
